@@ -39,6 +39,11 @@ def menu(d):
     M["ok_tmpl_globals"] = ("loads", H + "G({np}, {Symbol}+{sym}, k={os}) | 0\nH({copy}*2, {re}, {antlr4}, {var}) | 1\n")
     M["ok_arith"] = ("loads", H + "float y = 2*pi+sqrt(2)/3\nG(y**2, -y, q0*2) | 0\n")
     M["ok_tmpl_var"] = ("loads", H + "float x = {n}\nfloat array A[1, 2] =\n    {P}\nG(x, A) | 0\n")
+    # whole-array templates whose generated element names (U_0_0 ...) coincide with a written parameter, or with those of
+    # another array declared from the same placeholder; a parameter written many times
+    M["ok_tmpl_arr_clash"] = ("loads", H + "G({U_0_0}) | 0\ncomplex array U[2, 2] =\n    {U}\nH(U) | 1\n")
+    M["ok_tmpl_arr_twice"] = ("loads", H + "float array A[1, 2] =\n    {w}\nfloat array B[1, 2] =\n    {w}\nG(A, B, {w_0_1}, {w}) | 0\n")
+    M["ok_tmpl_repeat"] = ("loads", H + "float x = {a}\nG({a}, {a}*2) | 0\nfor int i in 0:2\n    H({a}, k={b}) | i\n")
     M["ok_loop"] = ("loads", H + "for int i in 0:2\n    G(i) | i\n")
     M["ok_tdm"] = ("loads", H + "type tdm (k=1)\nint array p0 =\n    1, 2\nG(p0) | 0\n")
     M["ok_tdm_tmpl"] = ("loads", H + "type tdm\nfloat array p1 =\n    0.5, {n}\nG(p1, {q}) | [0, 1]\n")
